@@ -169,12 +169,45 @@ def _report_bad_values(ctx: Ctx, oid: str, bad_v: A.DFA, what: str, n_checked: i
 # ------------------------------------------------------------------------------------------------
 
 
+LEXER_PROBE_TEXTS = [
+    "K::1\n", 'K::"a b"\n', "K::1\r\nJ::2\r\n", "K::1\rJ::2\r", 'K::"a\rb"\n', 'K::"a\r\nb"\n', "===D===\r\nK::v\r\n===END===\r\n", "K::[a,b]\n  L::x->y\n", "  K::v\n\n  J::w\n", "K::a  b\n", " K::V\n", "K::1 \n", "K::\u00e9\n", "k::TRUE\n", "K:: v\n", "K::v // c\n",
+]
+
+
+def probe_lexer_differential() -> tuple[bool, str]:
+    """concrete stand-in when tokenize's skeleton is not the one the step model assumes: the model's prediction
+    (token types and start offsets, or a lexical error) against the real lexer on texts that a pre- or post-processing
+    step would change (CR / CRLF line endings, CR inside quotes, trailing / doubled spaces, case, accents); and the
+    value of a quoted string keeps every character between the quotes"""
+    from octave_mcp.core.lexer import LexerError, tokenize
+
+    bad = []
+    for t in LEXER_PROBE_TEXTS:
+        for lenient in (False, True):
+            m, r = tokmodel.model_tokenize(t, lenient), tokmodel.real_tokenize(t, lenient)
+            m2 = m if isinstance(m, str) else [x for x in m]
+            r2 = r if isinstance(r, str) else [x for x in r]
+            if (isinstance(m2, str)) != (isinstance(r2, str)) or (not isinstance(m2, str) and m2 != r2):
+                bad.append(f"tokenize({t!r}, lenient={lenient}): model {str(m2)[:120]} real {str(r2)[:120]}")
+    for body in ("a\rb", "a\r\nb", "a  b ", "É", "a\u00a0b"):
+        try:
+            toks, _ = tokenize(f'K::"{body}"\n')
+            vals = [x.value for x in toks if x.type.name == "STRING"]
+        except LexerError as e:
+            vals = [f"LexerError {e}"]
+        if vals != [body]:
+            bad.append(f'the value of the quoted string "{body!r}" is read as {vals!r}')
+    return bool(bad), "; ".join(bad[:3]) or f"{len(LEXER_PROBE_TEXTS)} texts x 2 modes: the real lexer agrees with the step model; quoted bodies are read verbatim"
+
+
 def ob_skeleton(ctx: Ctx) -> Outcome:
     try:
         facts = tokmodel.skeleton_check()
         pats = tokmodel.token_patterns()
     except ExtractionError as e:
-        return Outcome.undecided("ast-shape", str(e))
+        from verif.common import shape_verdict
+
+        return shape_verdict("ast-shape", [str(e)], probe_lexer_differential, count=1, replay={"runner": "props.lexical:probe_lexer_differential", "args": {}})
     return Outcome.ok("ast-shape", count=len(facts), facts=facts, table_entries=len(pats))
 
 
